@@ -991,7 +991,7 @@ func b4(w *World, r *Report) {
 // ---------------------------------------------------------------- C12
 
 func checkC12(w *World, r *Report) {
-	r.Explanation = "Structural clause of C12: (O-1) both the validation of an unstaking transaction (on every success path for that tx type) and its execution (dominating the removal) refuse a sender that is not the owner of the stake found by the payload's tx hash under the target delegatee; (O-2) every assignment of a stake's refund height is `height of the current block + the governance unbonding period`; (O-3) the refund is control-dependent on `RefundHeight <= current height`, goes to the stake's owner, is PowerToAmount(power), is followed by deletion of that stake (C02 V-2), and runs once per block from EndBlock; (O-4) frozen-ledger keys are unique per stake (C02 V-4); (O-5) a stake that was moved or refunded is gone: deleting a record from a ledger (the delegatee emptied by an unstaking, the frozen stake after its refund) takes effect at the commit even when the record was also updated in the same block, and a record moved to the frozen ledger is read back as written (C18 L-1)."
+	r.Explanation = "Structural clause of C12: (O-1) both the validation of an unstaking transaction (on every success path for that tx type) and its execution (dominating the removal) refuse a sender that is not the owner of the stake found by the payload's tx hash under the target delegatee; (O-2) every assignment of a stake's refund height is `height of the current block + the governance unbonding period`; (O-3) the refund is control-dependent on `RefundHeight <= current height`, goes to the stake's owner, is PowerToAmount(power), is followed by deletion of that stake (C02 V-2), and runs once per block from EndBlock; (O-4) frozen-ledger keys are unique per stake (C02 V-4); (O-5) a stake that was moved or refunded is gone: deleting a record from a ledger (the delegatee emptied by an unstaking, the frozen stake after its refund) takes effect at the commit even when the record was also updated in the same block, and a record moved to the frozen ledger is read back as written (C18 L-1); (O-6) a record is addressed by one key: where a ledger call names a record by ToLedgerKey(item.F), the item type's Key() is exactly that derivation on every return."
 	r.NotCovered = "'exactly once' as a statement about histories (follows from O-3 and O-5, not computed); governance changing the period affects only stakes released afterwards (by construction of O-2)."
 	o1(w, r)
 	o2(w, r)
@@ -1482,7 +1482,7 @@ func checkC13(w *World, r *Report) {
 // ---------------------------------------------------------------- C14
 
 func checkC14(w *World, r *Report) {
-	r.Explanation = "Structural clause of C14: (J-1) RigoApp.BeginBlock runs the governance and the stake BeginBlock on the block's context; each ranges over all ByzantineValidators and punishes once per entry; the object slashed and recorded is the one looked up by the evidence's validator address, with the governance slash ratio; governance punishes exactly the proposals whose voters contain that address; (J-2) doSlashAll reduces each stake by power x ratio / 100, forfeits a stake whose reduction would be below 1 and recomputes the totals; GovProposal.DoPunish applies the same ratio expression to the voter's power, cancels the vote before and re-casts it after, and updates TotalVotingPower and MajorityPower = total x 2 / 3; (J-3) a non-signer is marked at height-1, its misses counted in [max(0, h-1-window), h-1], and only when window - missed < MinSignedBlocks all its stakes are moved to the frozen ledger (with refund height) and the delegatee is deleted."
+	r.Explanation = "Structural clause of C14: (J-1) RigoApp.BeginBlock runs the governance and the stake BeginBlock on the block's context; each ranges over all ByzantineValidators and punishes once per entry; the object slashed and recorded is the one looked up by the evidence's validator address, with the governance slash ratio; governance punishes exactly the proposals whose voters contain that address; (J-2) doSlashAll reduces each stake by power x ratio / 100, forfeits a stake whose reduction would be below 1 and recomputes the totals; GovProposal.DoPunish applies the same ratio expression to the voter's power, cancels the vote before and re-casts it after, and updates TotalVotingPower and MajorityPower = total x 2 / 3; (J-3) a non-signer is marked at height-1, its misses counted in [max(0, h-1-window), h-1], and only when window - missed < MinSignedBlocks all its stakes are moved to the frozen ledger (with refund height) and the delegatee is deleted; (J-4) the candidate list of a block is rebuilt into storage of its own, so the update that follows a jailing names the jailed validator (C10 U-1)."
 	r.NotCovered = "rounding effects summed over many stakes; the window behaviour over long histories (BlockMarker pruning); that no other validator changes is argued by the key used, not by an alias analysis."
 	j1(w, r)
 	j2(w, r)
